@@ -1,4 +1,5 @@
 pub mod entropy;
+pub mod envelope;
 pub mod queues;
 pub mod runloop;
 pub mod world;
@@ -12,6 +13,8 @@ use serde_json::Value;
 /// Per-worker context reused across runs.
 pub struct Ctx {
     pub iset: InstructionSet,
+    /// the shipped registry without wrappers
+    pub plain: InstructionSet,
     pub names: Vec<String>,
     pub tier: String,
     pub cur_index: u64,
@@ -21,7 +24,10 @@ pub struct Ctx {
 impl Ctx {
     pub fn new(args: &Args) -> Ctx {
         let (iset, names) = simenv::wrapped_set();
+        let mut plain = InstructionSet::new();
+        plain.load();
         Ctx {
+            plain,
             iset,
             names,
             tier: args.str("tier", "quick"),
@@ -96,6 +102,32 @@ pub fn run_one(engine: &str, seed: u64, ctx: &mut Ctx) -> OneResult {
                 counts: vec![],
             }
         }
+        "envelope-op" => {
+            let n = ctx.names.len() as u64;
+            let instr = ctx.names[(ctx.cur_index % n) as usize].clone();
+            let sc = envelope::generate_op(seed, &instr, ctx.tier == "thorough");
+            let r = envelope::execute_op(&sc, &mut ctx.plain);
+            let scv = if r.violations.is_empty() { Value::Null } else { serde_json::to_value(&sc).unwrap() };
+            let e = ctx.extra.entry("worst_cost_over_bound_permille".into()).or_insert(0);
+            *e = (*e).max(r.worst_ratio_milli);
+            OneResult {
+                violations: r.violations.into_iter().map(|v| (v, scv.clone())).collect(),
+                sample: serde_json::json!({"instruction": sc.instr, "int_layout": sc.int_layout, "float_layout": sc.float_layout, "magnitudes": sc.magnitudes}),
+                stats: r.stats,
+                counts: vec![],
+            }
+        }
+        "envelope-growth" => {
+            let sc = envelope::generate_growth(seed, &ctx.names);
+            let r = envelope::execute_growth(&sc, &mut ctx.iset, &ctx.names);
+            let scv = if r.violations.is_empty() { Value::Null } else { serde_json::to_value(&sc).unwrap() };
+            OneResult {
+                violations: r.violations.into_iter().map(|v| (v, scv.clone())).collect(),
+                sample: serde_json::json!({"program": sc.program_text.chars().take(300).collect::<String>()}),
+                stats: r.stats,
+                counts: vec![],
+            }
+        }
         "queues-enum" => {
             // `seed` is ignored: the run index enumerates the space (see main.rs)
             let sc = queues::enumerate(ctx.cur_index);
@@ -143,6 +175,14 @@ pub fn replay_one(engine: &str, scenario: &Value, ctx: &mut Ctx) -> Vec<Violatio
             let sc: entropy::EntropySc = serde_json::from_value(scenario.clone()).expect("entropy scenario");
             entropy::execute(&sc, &ctx.names).violations
         }
+        "envelope-op" => {
+            let sc: envelope::OpSc = serde_json::from_value(scenario.clone()).expect("envelope-op scenario");
+            envelope::execute_op(&sc, &mut ctx.plain).violations
+        }
+        "envelope-growth" => {
+            let sc: envelope::GrowthSc = serde_json::from_value(scenario.clone()).expect("envelope-growth scenario");
+            envelope::execute_growth(&sc, &mut ctx.iset, &ctx.names).violations
+        }
         _ => panic!("unknown engine {}", engine),
     }
 }
@@ -153,6 +193,12 @@ pub fn scenario_of(engine: &str, seed: u64, ctx: &mut Ctx) -> Value {
         "runloop" => serde_json::to_value(runloop::generate(seed, &ctx.names)).unwrap(),
         "queues" => serde_json::to_value(queues::generate(seed, &ctx.names, ctx.tier == "thorough")).unwrap(),
         "queues-enum" => serde_json::to_value(queues::enumerate(ctx.cur_index)).unwrap(),
+        "envelope-op" => {
+            let n = ctx.names.len() as u64;
+            let instr = ctx.names[(ctx.cur_index % n) as usize].clone();
+            serde_json::to_value(envelope::generate_op(seed, &instr, ctx.tier == "thorough")).unwrap()
+        }
+        "envelope-growth" => serde_json::to_value(envelope::generate_growth(seed, &ctx.names)).unwrap(),
         "entropy-c12" => serde_json::to_value(entropy::generate(seed, "C12", ctx.tier == "thorough")).unwrap(),
         "entropy-c13" => serde_json::to_value(entropy::generate(seed, "C13", ctx.tier == "thorough")).unwrap(),
         _ => panic!("unknown engine {}", engine),
